@@ -13,7 +13,7 @@ CLAIM = dict(
     text=('Decides the index, ordering and wiring facts in which off-by-one errors of the combinators live: trajectory_from_step returns the stepped carry and emits '
           'the incoming carry iff start_with_input else the outgoing one, through post_process_fn, scanning exactly outer_steps times over a step repeated '
           'inner_steps times; repeated scans `steps` times and threads the carry; step_with_filters applies the filters in the given order to (original input, '
-          'running output); the nested checkpointed scan has base case len==1, recurses on lengths[1:] with the same f/scan/checkpoint, scans lengths[0] per '
+          'running output) and no closure built in a loop in time_integration.py reads a loop-rebound variable late (python late binding would apply only the last filter); the nested checkpointed scan has base case len==1, recurses on lengths[1:] with the same f/scan/checkpoint, scans lengths[0] per '
           'level, returns (carry, concatenated outputs) and rejects inconsistent lengths; accumulate_repeated steps before accumulating from a zero accumulator '
           'and returns the accumulator; digital_filter_initialization normalises the initial weight and both weight vectors by the same total = 1 + (number of '
           'accumulated branches)·Σw and runs the backward branch on the time-reversed equation with the same filters and dt; TimeReversedImExODE negates both '
@@ -137,6 +137,29 @@ def rule_repeated(chk, prog):
   ok = gb.k == 'tuple' and len(gb.a) == 2 and gb.a[0] == sym.mk_call(sym_('fn'), [gx]) and gb.a[1] == sym.NONE
   chk.check(ok, rule, f'{site}: each scan iteration applies fn once to the carry and emits nothing', sym.show(gb), gb.loc or loc, '(fn(x), None)', sym.show(gb))
   chk.at_least(rule, 5)
+
+
+def rule_closure_binding(chk, prog):
+  """Closures built in a loop over filters / stages must not read the loop variable late."""
+  import ast, os
+  from sa import closures
+  rule = 'C14.8-closure-binding'
+  fx = os.path.join(os.path.dirname(os.path.dirname(os.path.abspath(__file__))), 'fixtures', 'closures_fixture', 'fixture.py')
+  tree = ast.parse(open(fx).read())
+  got = {f.name: len(closures.late_bound(f)) for f in tree.body if isinstance(f, ast.FunctionDef)}
+  if got != {'compose_bad': 1, 'compose_good': 0, 'consume_now': 0, 'store_bad': 1}:
+    raise AnalysisError(f'closure-binding fixture no longer matches: {got}')
+  chk.ok(rule, 'fixture fixtures/closures_fixture: late-bound loop closures are reported, value-bound and immediately consumed ones are not', str(got))
+  mod = prog.module(TI)
+  nf = 0
+  for f in ast.walk(mod.tree):
+    if not isinstance(f, ast.FunctionDef):
+      continue
+    nf += 1
+    for n, var, esc in closures.late_bound(f):
+      chk.violation(rule, f'{TI}.{f.name}: closure created in a loop reads `{var}` late', f'the closure is {esc}, so every instance sees the last value of `{var}` '
+                    '(e.g. only the last filter is applied, several times)', (mod.relpath, n.lineno), 'bind the value (default argument / partial) or call inside the iteration', ast.unparse(n)[:160])
+  chk.ok(rule, f'{TI}: no escaping closure in a loop reads a loop-rebound variable', f'{nf} function definitions scanned')
 
 
 def rule_step_with_filters(chk, prog):
@@ -370,7 +393,12 @@ def rule_time_reversed(chk, prog):
 def run(chk, prog, tier):
   rule_trajectory(chk, prog)
   rule_repeated(chk, prog)
-  rule_step_with_filters(chk, prog)
+  rule_closure_binding(chk, prog)
+  try:
+    rule_step_with_filters(chk, prog)
+  except AnalysisError:
+    if not any(v['rule'] == 'C14.8-closure-binding' for v in chk.violations):
+      raise
   rule_nested_scan(chk, prog)
   rule_accumulate(chk, prog)
   rule_dfi(chk, prog)
